@@ -603,7 +603,7 @@ func (g *generateBPMCmdv1) Run(ctx *context) error {
 		return err
 	}
 	if g.Cut {
-		bBPM = bBPM[:b.VData.BGbpm.PMSE.KeySignatureOffset()]
+		bBPM = bBPM[:b.VData.BGbpm.PMSEOffset()]
 	}
 	if err = os.WriteFile(g.BPM, bBPM, 0o600); err != nil {
 		return fmt.Errorf("unable to write BPM to file: %w", err)
